@@ -226,6 +226,21 @@ def unknown(ctx, c):
         for lit, branch in psanorm.literal_dispatch(f["body"], subj[0]).items():
             table[lit] = res_of(branch)
         table["_"] = res_of(f["body"])
+        if table["_"] is None:
+            # an if / else-if chain: the leaf reached when every comparison with a literal failed
+            from ..flow import Index as _Ix
+            dflt = []
+            for cs_, leaf in psanorm.result_table(_Ix(f["body"]), f["body"], unwrap=()):
+                lits_ok = True
+                for c_, pol in cs_:
+                    c_ = resolve(c_) if c_.get("k") not in ("armpat", "letexpr") else c_
+                    is_cmp = c_.get("k") == "binary" and c_["op"] == "==" and any(is_local(a_, subj[0]) and peel(b_).get("k") == "lit" for a_, b_ in ((c_["l"], c_["r"]), (c_["r"], c_["l"])))
+                    if not is_cmp or pol:
+                        lits_ok = False
+                if lits_ok and cs_:
+                    dflt.append(res_of(leaf))
+            if dflt and all(d_ == dflt[0] for d_ in dflt):
+                table["_"] = dflt[0]
     ctx.inst("R15.3", "read_sat_response:table", table == {"sat": "Ok(Sat)", "unsat": "Ok(Unsat)", "_": "Err"}, f["span"],
              "read_sat_response must map exactly \"sat\"->Sat, \"unsat\"->Unsat and everything else (unknown, garbage, empty) to an error: %s" % table, sample=table)
     # (A) nobody fabricates Unknown
@@ -448,7 +463,7 @@ def error_text(ctx):
                 names.append("unwrap_or")
                 prov(oe["none"], depth + 1)
                 if oe["some"] is not None and not (oe["bind"] is not None and is_local(psanorm.tail_value(oe["some"]), oe["bind"])):
-                    sources.append("?")
+                    prov(oe["some"], depth + 1)      # `Some(inner) => inner.trim()`: what is done to the payload counts as well
                 return
             e = psanorm.tail_value(e)
             if peel(e).get("k") == "blockexpr":
